@@ -6,6 +6,7 @@ import (
 	"sort"
 	"strings"
 	"sync"
+	"time"
 )
 
 // Value is one key's typed value.
@@ -97,6 +98,8 @@ type Server struct {
 	NodeID  int
 	// InfoReplication is appended to INFO replication answers
 	InfoExtra map[string]string
+	// RealClock: NowMs follows the wall clock (set before each request)
+	RealClock bool
 	// Unknown commands: if true they are accepted as opaque writes to args[0]
 	AcceptUnknown bool
 }
@@ -214,6 +217,9 @@ func (s *Server) serve(c *conn) {
 			return
 		}
 		s.Recv++
+		if s.RealClock {
+			s.NowMs = time.Now().UnixMilli()
+		}
 		if s.KeepRaw {
 			s.Raw = append(s.Raw, Entry{Seq: s.Recv, Conn: c.id, DB: c.db, Name: name, Args: args[1:], InMulti: c.inMulti})
 		}
